@@ -34,6 +34,7 @@ import (
 
 	"github.com/hashicorp/yamux"
 	"go.temporal.io/server/common/log"
+	"google.golang.org/grpc"
 
 	"github.com/temporalio/s2s-proxy/config"
 	"github.com/temporalio/s2s-proxy/encryption"
@@ -363,5 +364,47 @@ func TestVerifReceiverRole(t *testing.T) {
 	wg.Wait()
 	for _, l := range res {
 		fmt.Fprintln(w, l)
+	}
+}
+
+// The configured pool size as the proxy's configuration layer hands it to the providers (NewGRPCMuxManager from a
+// config.ClusterDefinition): for both roles and muxCount 0 (unset: the documented default of 10), 1, 2, 3, 7, 16 the number
+// of connection permits of the provider that was built.
+//
+// output: MUXCOUNT role=<server|client> configured=<n> permits=<k>
+type vrrNoListener struct{}
+
+func (vrrNoListener) OnConnectionListUpdate(map[string]session.ManagedMuxSession) {}
+
+func TestVerifMuxCountConfig(t *testing.T) {
+	_, w, done := verifIO(t)
+	defer done()
+	for _, role := range []config.ConnectionType{config.ConnTypeMuxServer, config.ConnTypeMuxClient} {
+		for _, n := range []int{0, 1, 2, 3, 7, 16} {
+			ctx, cancel := context.WithCancel(context.Background())
+			cd := config.ClusterDefinition{ConnectionType: role, MuxCount: n, MuxAddressInfo: config.TCPTLSInfo{ConnectionString: "127.0.0.1:0"}}
+			mgr, err := NewGRPCMuxManager(ctx, "verif-count", cd, vrrNoListener{}, grpc.NewServer(), log.NewNoopLogger())
+			if err != nil {
+				fmt.Fprintf(w, "MUXCOUNT role=%s configured=%d error=%v\n", role, n, err)
+				cancel()
+				continue
+			}
+			p := mgr.(*multiMuxManager).muxProvider.(*muxProvider)
+			permits := 0
+			for k := 64; k >= 1; k-- {
+				if p.muxPermits.TryAcquire(int64(k)) {
+					p.muxPermits.Release(int64(k))
+					permits = k
+					break
+				}
+			}
+			name := "server"
+			if role == config.ConnTypeMuxClient {
+				name = "client"
+			}
+			fmt.Fprintf(w, "MUXCOUNT role=%s configured=%d permits=%d\n", name, n, permits)
+			cancel()
+			mgr.Start() // lets the manager observe the cancelled lifetime and release the listener
+		}
 	}
 }
